@@ -21,6 +21,13 @@ ASSUMPTIONS = ["protobuf message equality (==) is the comparison; the top module
 TRUSTED = ["protobuf equality"]
 
 
+def ns_get(node, part):
+    """A child of a namespace from_proto built, by its name — read from the namespace's own entries, so that a name spelled like
+    an attribute every object has (`__dict__`, `__class__`) is still the child."""
+    d = vars(node)
+    return d[part] if part in d else getattr(node, part)
+
+
 def roundtrip(pkg, topname=None):
     """Import, then export the imported top-level modules (those no other module of the package instantiates), in package order."""
     try:
@@ -33,8 +40,8 @@ def roundtrip(pkg, topname=None):
             node = ns
             parts = m.name.split(".")
             for part in parts[:-1]:
-                node = getattr(node, part)
-            tops.append(getattr(node, parts[-1]))
+                node = ns_get(node, part)
+            tops.append(ns_get(node, parts[-1]))
         pkg2 = h.to_proto(tops if len(tops) != 1 else tops[0])
     except Exception as ex:  # noqa
         return {"error": f"{type(ex).__name__}: {str(ex)[-250:]}"}
@@ -64,7 +71,7 @@ def imported_json(pkg):
         node = ns
         parts = pm.name.split(".")
         for part in parts:
-            node = getattr(node, part)
+            node = ns_get(node, part)
         m = node
         out.append({"name": pm.name,
                     "signals": [[s.name, s.width] for s in m.signals.values()],
@@ -156,6 +163,20 @@ def first_difference(a, b, path=""):
 
 
 @h.paramclass
+class NameParams:
+    s = h.Param(dtype=str, desc="a string which ends up inside the module's readable name")
+    v = h.Param(dtype=float, desc="a float, whose text has a dot", default=1.8)
+
+
+@h.generator
+def NamedBy(p: NameParams) -> h.Module:
+    m = h.Module()
+    m.a = h.Port()
+    m.r = h.R(r=1)(p=m.a, n=m.a)
+    return m
+
+
+@h.paramclass
 class FalsyParams:
     m = h.Param(dtype=int, desc="m", default=1)
     nrd = h.Param(dtype=float, desc="nrd", default=1.0)
@@ -204,6 +225,15 @@ def param_space_packages(rng, n):
         m.literals.append(h.Literal("`endif"))
         m.literals.append(h.Literal(f".param k={k}"))
         out.append((f"params:{k}", m))
+    # generated modules whose names embed strings full of the separator of qualified names: every dot must come back
+    for k, txt in enumerate(["../pdk/models.sp", "a..b", ".", "..", "x.", ".hidden", "a. b", "lib/models.sp", "...", "a.b.c..d", "tt.1.8",
+                             # a segment called like an attribute of the namespaces from_proto builds
+                             "a.name.b", "name", "x.name", "name.name", "a.__dict__.b"]):
+        m = h.Module(name=f"Dots{k}")
+        m.s = h.Signal()
+        m.i = NamedBy(s=txt)(a=m.s)
+        m.j = NamedBy(s=txt, v=0.5)(a=m.s)
+        out.append((f"dotted-name:{txt}", m))
     # modules defined outside any Python module (exec-ed source with fresh globals, as in a notebook cell or `python -c`)
     src = ("import hdl21 as h\n@h.module\nclass LeafX:\n    a = h.Port()\n    r = h.R(r=1)(p=a, n=a)\n"
            "@h.module\nclass TopX:\n    s = h.Signal()\n    l = LeafX(a=s)\n")
